@@ -82,6 +82,7 @@ def _signer_params():
 @ob("C20", "wiped_signer_never_signs", quick=_signer_params(),
     bound="a Signer object (Python arm, toy curve) whose private scalar is arbitrary and whose wiped flag is arbitrary: wipe() always leaves scalar 0 and the flag set; "
           "with the flag set, sign_ and sign refuse for every message; neither entry point ever clears the flag",
+    stubs=["dsa.challenge_ and ssa.sign_ (what a Signer calls right after its wiped-flag check) are recorders: reaching them counts as signing"],
     functions=["btclib.ecc.dsa.Signer.wipe", "btclib.ecc.ssa.Signer.wipe", "btclib.ecc.dsa.Signer.sign_", "btclib.ecc.ssa.Signer.sign_"], min_ok=1)
 def wiped_signer(ex, kind, ec):
     curve = toy.curve(ec)
@@ -96,13 +97,27 @@ def wiped_signer(ex, kind, ec):
         s._signer = None
     s.wipe()
     claims = {"wipe_sets_flag_and_clears_scalar": sand(s._wiped == True, s._q == 0)}   # noqa: E712
+    # past the flag check, the first thing either Signer does is derive the challenge / call the module-level signer: reaching it is the violation
+    reached = []
+
+    class _Reached(Exception):
+        pass
+
+    def rec(*a, **k):
+        reached.append(1)
+        raise _Reached()
+    ex.stub(dsa.challenge_, rec)
+    ex.stub(ssa.sign_, rec)
     msg = ex.bytes("m", 32)
     for name, call in (("sign_", lambda: s.sign_(msg)), ("sign", lambda: s.sign(msg))):
         try:
             call()
-            claims[f"{name}_refuses_after_wipe"] = False
+            refused = False
         except BTClibValueError:
-            claims[f"{name}_refuses_after_wipe"] = True
+            refused = True
+        except _Reached:
+            refused = False
+        claims[f"{name}_refuses_after_wipe"] = sand(refused, len(reached) == 0)
         claims[f"{name}_keeps_flag"] = s._wiped == True   # noqa: E712
     return claims
 
